@@ -502,6 +502,11 @@ class CHECK(core.Check):
                 buf = bytearray(unhx(c["buf"]))
                 st, r = call(B.packifyInto, buf, fs, fields, size, c["offset"], rev, inplace=(0,))
                 out.append("%s %s" % (hx(buf), r) if st == "ok" else r)
+            # pure functions: the same call made again, after all the others, must answer the same
+            for rev, idx in ((False, 0), (True, 6)):
+                st, p = call(B.packify, fs, fields, size, rev)
+                if (hx(p) if st == "ok" else p) != out[idx]:
+                    out.append("UNSTABLE packify(reverse=%s) first %s, again %s" % (rev, out[idx], hx(p) if st == "ok" else p))
             return out
         if k == "unpack":
             fs = fmtstr(c["fmt"])
@@ -757,6 +762,8 @@ class CHECK(core.Check):
         if any(o.startswith("HARNESS") for o in out):
             return "harness: " + out[0]
         for o in out:
+            if o.startswith("UNSTABLE"):
+                return "the same call answered differently the second time: " + o[9:]
             if o.startswith("ARG-MUTATED"):      # only packifyInto may write to an argument (its target buffer)
                 return "a codec changed its argument: " + o[12:]
         if k in ("packall", "packvec"):
